@@ -294,6 +294,14 @@ pub fn corpus() -> Corpus {
         Kind::Struct,
         FB::new().f(1, st("Tree"), Optional).f(2, m(String, st("Tree")), Optional).f(3, I16, Default).done(),
     ));
+    // recursion through required and default-requiredness links (boxed without an Option), closed by a union
+    c.structs.push(sd(
+        "Expr",
+        Kind::Union,
+        FB::new().f(1, st("BinaryOp"), Optional).f(2, I64, Optional).f(3, String, Optional).f(4, st("UnaryOp"), Optional).f(5, l(st("Expr")), Optional).done(),
+    ));
+    c.structs.push(sd("BinaryOp", Kind::Struct, FB::new().f(1, String, Required).f(2, st("Expr"), Required).f(3, st("Expr"), Default).done()));
+    c.structs.push(sd("UnaryOp", Kind::Struct, FB::new().f(1, st("Expr"), Default).f(2, st("Expr"), Optional).f(3, I32, Required).done()));
     // everything together, sibling fields after nested structs, odd ids
     c.structs.push(sd(
         "Outer",
